@@ -204,9 +204,10 @@ def _run(a, mod, prop, tier, seed, known, workdir, t0) -> int:
         for s in range(nsh):
             jobs.append(dict(base, mode="exhaustive", shard=s, nshards=nsh, origin="exhaustive"))
     for vi, v in enumerate(variants):
-        for s in range(per_variant):
+        nsh_v = v.get("shards", per_variant)  # a variant may ask for its own share of the worker processes
+        for s in range(nsh_v):
             extra = {"seed_salt": vi * 7919} if getattr(mod, "VARIANT_DISTINCT_SEEDS", False) else {}
-            jobs.append(dict(base, mode="search", shard=s, nshards=per_variant, env=v.get("env"),
+            jobs.append(dict(base, mode="search", shard=s, nshards=nsh_v, env=v.get("env"),
                              args=dict(v.get("args") or {}, variant=v.get("name", str(vi)), **extra), origin=f"search:{v.get('name', vi)}:{s}"))
     results = run_jobs(jobs, workdir, a.jobs)
     for j, r in zip(jobs, results):
